@@ -676,7 +676,9 @@ where
                     }
                     ChunkCommand::Resume => {
                         //info!("[verify-test] run_vms_child: resume");
-                        let res = scheduler.run(RunMode::Pause(pause_cloned, max_cycles));
+                        // the cycles consumed before a pause count against max_cycles as well
+                        let remain_cycles = max_cycles.saturating_sub(scheduler.consumed_cycles());
+                        let res = scheduler.run(RunMode::Pause(pause_cloned, remain_cycles));
                         match res {
                             Ok(_) => {
                                 let _ = finish_tx.send(res);
